@@ -73,6 +73,23 @@ def render(spec: dict, variant: dict) -> tuple[str, str]:
             return node
 
         d = bare(d)
+    if r == "yamlMixedKeys":
+        # every OTHER number-like key of each mapping is written bare, its neighbours stay quoted strings: `200:` next to `'404':`
+        def mixed(node):
+            if isinstance(node, dict):
+                out, n = {}, 0
+                for k, v in node.items():
+                    if isinstance(k, str) and k.isdigit() and str(int(k)) == k:
+                        n += 1
+                        out[int(k) if n % 2 else k] = mixed(v)
+                    else:
+                        out[k] = mixed(v)
+                return out
+            if isinstance(node, list):
+                return [mixed(x) for x in node]
+            return node
+
+        d = mixed(d)
     txt = yaml.safe_dump(d, sort_keys=False, default_flow_style=(r == "yamlFlow"), width=100000)
     if r == "yamlCapBool":
         # YAML 1.1 booleans may be written True / False / TRUE / FALSE: same meaning
@@ -126,7 +143,7 @@ def tree_hash(root: str, pkg: str) -> str:
 
 def run(chk: Check) -> None:
     thorough = chk.tier == "thorough"
-    cfg = f"SPECIFICATION Spec\nCONSTANTS\n Renderings = {tla({'json', 'jsonSorted', 'yamlBlock', 'yamlFlow', 'yamlBareKeys', 'yamlCapBool'})}\n Perms = {tla({'id', 'rev', 'rot'})}\nCHECK_DEADLOCK FALSE\n"
+    cfg = f"SPECIFICATION Spec\nCONSTANTS\n Renderings = {tla({'json', 'jsonSorted', 'yamlBlock', 'yamlFlow', 'yamlBareKeys', 'yamlMixedKeys', 'yamlCapBool'})}\n Perms = {tla({'id', 'rev', 'rot'})}\nCHECK_DEADLOCK FALSE\n"
     r = run_tlc(chk.scratch, "Render", cfg, workers=4)
     chk.add_tlc("Render", r)
     variants = sorted(r.printed.get("SCEN", []), key=lambda v: json.dumps(v, sort_keys=True))
@@ -230,7 +247,7 @@ def run(chk: Check) -> None:
             loc["family"] = dname.split(":")[0]
             if loc["family"] == "graph":
                 loc["shape"] = dname.split(":")[3]   # the document itself (edges @ declaration order): known order-dependences are listed per shape
-            if var["variant"]["rendering"] == "yamlBareKeys":
+            if var["variant"]["rendering"] in ("yamlBareKeys", "yamlMixedKeys"):
                 # which kind of key was written bare in this document (observation of the DOCUMENT, plain inspection)
                 loc["bare_key_kinds"] = "+".join(sorted(k for k, has in (("property", dname == "feat:numeric_prop_keys"), ("discriminator_value", dname == "feat:disc_numeric_keys")) if has)) or "status"
             detail = ""
